@@ -23,8 +23,8 @@ func ModelEnvconfigProcess(prefix string, spec interface{}) error {
 
 // LenOf / SwapElems are engine helpers for models that handle slices of any element type
 // (natively they are never called).
-func LenOf(slice interface{}) int              { panic("engine only") }
-func SwapElems(slice interface{}, i, j int)     { panic("engine only") }
+func LenOf(slice interface{}) int           { panic("engine only") }
+func SwapElems(slice interface{}, i, j int) { panic("engine only") }
 
 // ModelSortSlice models sort.Slice: an insertion sort driven by the caller's less function (any
 // permutation sorted by less is a legal outcome of sort.Slice; callers in inbucket sort by unique
